@@ -86,9 +86,46 @@ def gen_case(rng):
         s = c01.gen_stack(rng, rng.randint(3, 10), D, 2, [2, 3, 4, 4, 11, 11], int_values=(1, 2, -1)) if rng.random() < 0.5 \
             else gen_shared_abs(rng, D)
         kind = "abspoly"
-    elif k < 0.6:     # constant free, no powers
+    elif k < 0.5:     # constant free, no powers
         s = c01.gen_stack(rng, rng.randint(2, 12), D, 0, [2, 3, 4, 5, 6, 7, 8, 9, 11, 12, 14, 15, 2, 3, 4], int_values=(0, 1, 2, 3, -1, -2))
         kind = "nopow"
+    elif k < 0.63:    # (0.5 - 0.63) functions of constant-only sub-expressions that SHARE constants with other uses (constant folding may only
+        # replace a constant-valued group by a new constant when no other use of its constants is left behind)
+        m = rng.randint(2, 3)
+        s = [[1, i, i] for i in range(m)] + [[0, i, i] for i in range(D)]
+        pool = list(range(m))
+        for _ in range(rng.randint(1, 3)):
+            if rng.random() < 0.5:
+                s.append([rng.choice([2, 2, 3, 4]), rng.choice(pool), rng.choice(pool)])
+            else:
+                s.append([rng.choice([6, 7, 8]), rng.choice(pool), rng.choice(pool)])
+                s[-1][2] = s[-1][1]
+            pool.append(len(s) - 1)
+        terms = []
+        if rng.random() < 0.5:
+            # the sharpest shape: f(Ca op Cb)*X, g(Ca)*X (or Ca*X), Cb*X - every constant has a use outside the mixed group
+            a, b = rng.sample(range(m), 2)
+            s.append([rng.choice([2, 3, 4]), a, b])
+            s.append([rng.choice([6, 7, 8]), len(s) - 1, len(s) - 1])
+            mixed = len(s) - 1
+            s.append([rng.choice([6, 7, 8]), a, a])
+            alone = len(s) - 1 if rng.random() < 0.7 else a
+            for kp in rng.sample([mixed, alone, b], 3):
+                v = m + rng.randrange(D)
+                s.append([4, kp, v] if rng.random() < 0.5 else [4, v, kp])
+                terms.append(len(s) - 1)
+        for _ in range(rng.randint(2, 4) if not terms else rng.randint(0, 1)):
+            kpick = rng.choice(pool) if rng.random() < 0.7 else rng.randrange(m)
+            v = m + rng.randrange(D)
+            s.append([rng.choice([4, 4, 4, 2]), kpick, v] if rng.random() < 0.5 else [4, v, kpick])
+            if rng.random() < 0.25:
+                s.append([rng.choice([6, 7]), len(s) - 1, len(s) - 1])
+            terms.append(len(s) - 1)
+        acc = terms[0]
+        for t in terms[1:]:
+            s.append([rng.choice([2, 2, 3]), acc, t])
+            acc = len(s) - 1
+        kind = "cfun"
     elif k < 0.66:    # a constant power of a power with a non-constant exponent, and of a product of three or more factors
         # ((u^v)^k -> u^(v*k);  (a*b*c)^k -> a^k*b^k*c^k: branches of _simplify_constant_power / _simplify_product_rec that random
         # stacks over all operators reach too rarely - anchored-code coverage showed them never executed in a quick run)
@@ -340,7 +377,7 @@ def impl_main(payload):
                 j = int(np.argmax(np.abs(y1 - y0) * sel))
                 viol.append("constant-free stack %r evaluates to %r at x=%r, its simplification %r to %r"
                             % (c["stack"], float(y0[j]), x[j].tolist(), outl, float(y1[j])))
-        elif c["kind"] in ("poly", "abspoly") and L1 > 0:
+        elif c["kind"] in ("poly", "abspoly", "cfun") and L1 > 0:
             # some constant vector of the simplified equation must reproduce the original at every point
             stats["fits"] += 1
             xs = np.array([[rng.uniform(-2.0, 2.0) for _ in range(D)] for _ in range(30)])
@@ -351,12 +388,38 @@ def impl_main(payload):
                 return np.asarray(g1.evaluate_equation_at(xs), dtype=float).ravel() - y
 
             base = set(c0) | {1.0, -1.0, 0.0, 2.0} | ({abs(v) for v in c0} if c["kind"] == "abspoly" else set())
+            if c["kind"] == "cfun":
+                # a folded constant is the value of a constant-valued sub-expression of the original
+                cvals, isconst = [], []
+                for (n_, p1_, p2_) in red_l:
+                    if n_ == 1:
+                        cvals.append(float(c0[p1_])); isconst.append(True)
+                    elif n_ == -1:
+                        cvals.append(float(p1_)); isconst.append(True)
+                    elif n_ == 0:
+                        cvals.append(0.0); isconst.append(False)
+                    else:
+                        a_, b_ = cvals[p1_], cvals[p2_]
+                        isconst.append(isconst[p1_] and (isconst[p2_] or n_ in (6, 7, 8)))
+                        cvals.append({2: a_ + b_, 3: a_ - b_, 4: a_ * b_, 6: math.sin(a_), 7: math.cos(a_), 8: math.exp(min(a_, 50.0))}.get(n_, 0.0)
+                                     if isconst[-1] else 0.0)
+                base |= {v for v, ic in zip(cvals, isconst) if ic}
             cand = set(base)
             for a, b in itertools.product(list(base), repeat=2):
                 cand |= {a + b, a * b, a - b}
-            for a, b in itertools.product(list(cand), list(base)):
-                cand |= {a + b, a * b}
+            if c["kind"] != "cfun":
+                for a, b in itertools.product(list(cand), list(base)):
+                    cand |= {a + b, a * b}
             cand = sorted(cand)
+            if c["kind"] == "cfun" and len(cand) ** L1 > 60000:
+                cand_bf = sorted(base)
+                for cv in itertools.product(cand_bf, repeat=L1):
+                    if np.max(np.abs(resid(cv))) <= 1e-8 * (1.0 + float(np.max(np.abs(y)))):
+                        stats["fit_exact"] += 1
+                        cand = None
+                        break
+                if cand is None:
+                    continue
             scale = 1.0 + float(np.max(np.abs(y)))
             found = False
             if len(cand) ** L1 <= 60000:
@@ -394,9 +457,9 @@ def impl_main(payload):
                             stats["fit_lsq"] += 1
                             break
                 if not found:
-                    viol.append("polynomial stack %r with constants %r: no constant vector makes its simplification %r (%d constants) agree "
+                    viol.append("stack %r with constants %r: no constant vector makes its simplification %r (%d constants) agree "
                                 "(best maximal deviation %.3g over 30 points)" % (c["stack"], c0, outl, L1, best))
-        elif c["kind"] in ("poly", "abspoly") and L1 == 0:
+        elif c["kind"] in ("poly", "abspoly", "cfun") and L1 == 0:
             y1 = np.asarray(g1.evaluate_equation_at(x), dtype=float).ravel()
             if not np.allclose(y1, y0, rtol=1e-9, atol=1e-9):
                 viol.append("polynomial stack %r with constants %r simplifies to the constant-free %r, which differs" % (c["stack"], c0, outl))
@@ -411,6 +474,10 @@ def check(rep, proof):
     cases.append(dict(stack=[[1, -1, -1], [1, -1, -1], [2, 0, 1], [0, 0, 0], [0, 1, 1], [0, 2, 2], [4, 2, 3], [4, 2, 4], [4, 1, 5], [2, 6, 7], [2, 9, 8]],
                       D=3, kind="poly"))
     cases.append(dict(stack=[[1, 0, 0], [1, 1, 1], [4, 0, 1], [0, 0, 0], [4, 2, 3], [0, 1, 1], [4, 2, 5], [2, 4, 6], [4, 0, 3], [2, 7, 8]], D=2, kind="poly"))
+    # corpus (seeded change C03-folding-search-skips-constant-subtree-interior): sin(C0 + C1)*X0 + exp(C0)*X1 + C1*X2 - C0 is used
+    # inside a constant-only group together with C1 and alone under exp, C1 is pinned by a third use
+    cases.append(dict(stack=[[1, 0, 0], [1, 1, 1], [0, 0, 0], [0, 1, 1], [0, 2, 2], [2, 0, 1], [6, 5, 5], [4, 6, 2], [8, 0, 0], [4, 8, 3],
+                             [4, 1, 4], [2, 7, 9], [2, 11, 10]], D=3, kind="cfun"))
     # every composition f(g(u)) of two unary operators, u = X_0 - X_1 (negative on half of the plane): inverse-looking pairs such
     # as exp(log(u)) (= |u| here: the logarithm is log|u|), sqrt(u)^2, ||u|| must keep their value pointwise
     UN = [6, 7, 8, 9, 11, 12, 14, 15]
